@@ -43,6 +43,9 @@ You have to disable enum or useUnderlyingTypeMethods to resolve the setting conf
 
 	if targetUnderlying {
 		innerTarget = xtype.TypeOf(target.NamedType.Underlying())
+		// a fallible conversion of the underlying type returns early next to its error:
+		// that value must have the target type, not the underlying one.
+		ctx.SetErrorTargetVar(xtype.ZeroValue(target.T))
 	}
 
 	stmt, id, err := gen.Build(ctx, sourceID, innerSource, innerTarget, errPath)
